@@ -149,7 +149,7 @@ func verifPayload(v interface{}) string {
 	case big.Float:
 		return "(bad floatbyvalue)"
 	default:
-		return fmt.Sprintf("(cap %T)", v)
+		return "(cap)"
 	}
 }
 
